@@ -1,6 +1,1032 @@
-//! C17 — not built yet.
+//! C17 — stream framing is independent of how the bytes are chunked.
+//!
+//! Drives the real `hickory_net::tcp::TcpStream` (optionally wrapped in `TcpClientStream` or
+//! `hickory_server::server::TimeoutStream`) over a scripted `DnsTcpStream`.
+//!
+//! Case line:  `io <wrap> <v|s> <read-script> <write-script> <prog>`
+//!   wrap   t = TcpStream, c = TcpClientStream, o = TimeoutStream(0 = off), O = TimeoutStream(1 h)
+//!   v|s    socket with a real `poll_write_vectored` / with the default one only
+//!   read   `d<hex>` k bytes available, `p` Pending (waker woken at once), `e` EOF, `x` Err; `-` empty;
+//!          an exhausted script blocks for ever (Pending, nobody wakes the task)
+//!   write  `a<n>` accept up to n bytes, `p` Pending, `x` Err; exhausted = blocks for ever;
+//!          `poll_flush` succeeds on `a…` (event stays), Pending on `p`, Err on `x`
+//!   prog   `s<hex>` handle.send, `S<hex>` send through `with_remote_addr(other)`, `p` poll once;
+//!          afterwards the stream is polled while the task is woken.
+//! Output: every `poll_next` result (`m<hex>` / `P` woken Pending / `I` un-woken Pending / `end` / `err`),
+//!         ` w=<bytes accepted by the socket> f=<successful flushes> r=<sends refused by the full queue>`.
+use std::collections::VecDeque;
+use std::io::{self, IoSlice};
+use std::net::SocketAddr;
+use std::pin::Pin;
+use std::sync::atomic::{AtomicBool, Ordering};
+use std::sync::{Arc, Mutex, OnceLock};
+use std::task::{Context, Poll, Wake, Waker};
+use std::time::Duration;
+
+use futures_io::{AsyncRead, AsyncWrite};
+use futures_util::stream::{Stream, StreamExt};
+use hickory_net::runtime::{DnsTcpStream, TokioTime};
+use hickory_net::tcp::{TcpClientStream, TcpStream};
+use hickory_net::xfer::DnsStreamHandle;
+use hickory_proto::op::SerialMessage;
+use hickory_server::server::TimeoutStream;
+
 use crate::common::*;
 
-pub fn run(_o: &Opts, rec: &mut Recorder) {
-    rec.rule = "stub".into();
+#[derive(Clone, Debug, PartialEq)]
+enum REv {
+    Data(Vec<u8>),
+    Pending,
+    Eof,
+    Err,
+}
+
+#[derive(Clone, Debug, PartialEq)]
+enum WEv {
+    Accept(usize),
+    Pending,
+    Err,
+}
+
+#[derive(Clone, Debug, PartialEq)]
+enum Act {
+    Send(Vec<u8>, bool),
+    Poll,
+}
+
+#[derive(Default)]
+struct Sock {
+    rs: VecDeque<REv>,
+    ws: VecDeque<WEv>,
+    vectored: bool,
+    written: Vec<u8>,
+    flushes: usize,
+    /// which half answered "blocks for ever" during the current poll
+    idle_side: Option<char>,
+    /// protocol violations of the caller (never expected)
+    misuse: Vec<String>,
+}
+
+struct ScriptSock(Arc<Mutex<Sock>>);
+
+impl AsyncRead for ScriptSock {
+    fn poll_read(self: Pin<&mut Self>, cx: &mut Context<'_>, buf: &mut [u8]) -> Poll<io::Result<usize>> {
+        let mut g = self.0.lock().unwrap();
+        loop {
+            match g.rs.front_mut() {
+                None => {
+                    g.idle_side = Some('r');
+                    return Poll::Pending;
+                }
+                Some(REv::Pending) => {
+                    g.rs.pop_front();
+                    cx.waker().wake_by_ref();
+                    return Poll::Pending;
+                }
+                Some(REv::Err) => {
+                    g.rs.pop_front();
+                    return Poll::Ready(Err(io::Error::new(io::ErrorKind::ConnectionReset, "scripted")));
+                }
+                Some(REv::Eof) => return Poll::Ready(Ok(0)),
+                Some(REv::Data(d)) => {
+                    if d.is_empty() {
+                        g.rs.pop_front();
+                        continue;
+                    }
+                    if buf.is_empty() {
+                        return Poll::Ready(Ok(0));
+                    }
+                    let n = buf.len().min(d.len());
+                    buf[..n].copy_from_slice(&d[..n]);
+                    d.drain(..n);
+                    if d.is_empty() {
+                        g.rs.pop_front();
+                    }
+                    return Poll::Ready(Ok(n));
+                }
+            }
+        }
+    }
+}
+
+impl ScriptSock {
+    fn write(g: &mut Sock, cx: &mut Context<'_>, buf: &[u8]) -> Poll<io::Result<usize>> {
+        match g.ws.pop_front() {
+            None => {
+                g.idle_side = Some('w');
+                Poll::Pending
+            }
+            Some(WEv::Accept(n)) => {
+                let n = n.min(buf.len());
+                g.written.extend_from_slice(&buf[..n]);
+                Poll::Ready(Ok(n))
+            }
+            Some(WEv::Pending) => {
+                cx.waker().wake_by_ref();
+                Poll::Pending
+            }
+            Some(WEv::Err) => Poll::Ready(Err(io::Error::new(io::ErrorKind::ConnectionReset, "scripted"))),
+        }
+    }
+}
+
+impl AsyncWrite for ScriptSock {
+    fn poll_write(self: Pin<&mut Self>, cx: &mut Context<'_>, buf: &[u8]) -> Poll<io::Result<usize>> {
+        let mut g = self.0.lock().unwrap();
+        if buf.is_empty() {
+            g.misuse.push("poll_write with an empty buffer".into());
+        }
+        Self::write(&mut g, cx, buf)
+    }
+
+    fn poll_write_vectored(self: Pin<&mut Self>, cx: &mut Context<'_>, bufs: &[IoSlice<'_>]) -> Poll<io::Result<usize>> {
+        let mut g = self.0.lock().unwrap();
+        if g.vectored {
+            let all: Vec<u8> = bufs.iter().flat_map(|b| b.iter().copied()).collect();
+            Self::write(&mut g, cx, &all)
+        } else {
+            // the default method of futures_io::AsyncWrite: first non-empty buffer
+            let first: &[u8] = bufs.iter().find(|b| !b.is_empty()).map_or(&[][..], |b| &**b);
+            Self::write(&mut g, cx, first)
+        }
+    }
+
+    fn poll_flush(self: Pin<&mut Self>, cx: &mut Context<'_>) -> Poll<io::Result<()>> {
+        let mut g = self.0.lock().unwrap();
+        match g.ws.front() {
+            None => {
+                g.idle_side = Some('w');
+                Poll::Pending
+            }
+            Some(WEv::Pending) => {
+                g.ws.pop_front();
+                cx.waker().wake_by_ref();
+                Poll::Pending
+            }
+            Some(WEv::Err) => {
+                g.ws.pop_front();
+                Poll::Ready(Err(io::Error::new(io::ErrorKind::ConnectionReset, "scripted")))
+            }
+            Some(WEv::Accept(_)) => {
+                g.flushes += 1;
+                Poll::Ready(Ok(()))
+            }
+        }
+    }
+
+    fn poll_close(self: Pin<&mut Self>, _cx: &mut Context<'_>) -> Poll<io::Result<()>> {
+        Poll::Ready(Ok(()))
+    }
+}
+
+impl DnsTcpStream for ScriptSock {
+    type Time = TokioTime;
+}
+
+struct Flag(AtomicBool);
+impl Wake for Flag {
+    fn wake(self: Arc<Self>) {
+        self.0.store(true, Ordering::SeqCst);
+    }
+    fn wake_by_ref(self: &Arc<Self>) {
+        self.0.store(true, Ordering::SeqCst);
+    }
+}
+
+#[derive(Clone, Debug, PartialEq)]
+enum Tok {
+    Msg(Vec<u8>),
+    P,
+    I,
+    End,
+    Err,
+}
+
+impl Tok {
+    fn show(&self) -> String {
+        match self {
+            Tok::Msg(m) => format!("m{}", hex(m)),
+            Tok::P => "P".into(),
+            Tok::I => "I".into(),
+            Tok::End => "end".into(),
+            Tok::Err => "err".into(),
+        }
+    }
+}
+
+struct Case {
+    wrap: char,
+    vec: bool,
+    rs: Vec<REv>,
+    ws: Vec<WEv>,
+    prog: Vec<Act>,
+}
+
+fn parse_list<T>(s: &str, f: impl Fn(&str) -> Option<T>) -> Option<Vec<T>> {
+    if s == "-" {
+        return Some(vec![]);
+    }
+    s.split(',').map(f).collect()
+}
+
+fn parse_case(t: &[&str]) -> Option<Case> {
+    let ["io", wrap, vec, rs, ws, prog] = t else { return None };
+    let wrap = match *wrap {
+        "t" => 't',
+        "c" => 'c',
+        "o" => 'o',
+        "O" => 'O',
+        _ => return None,
+    };
+    let vec = match *vec {
+        "v" => true,
+        "s" => false,
+        _ => return None,
+    };
+    let rs = parse_list(rs, |e| match e {
+        "p" => Some(REv::Pending),
+        "e" => Some(REv::Eof),
+        "x" => Some(REv::Err),
+        _ => unhex(e.strip_prefix('d')?).map(REv::Data),
+    })?;
+    let ws = parse_list(ws, |e| match e {
+        "p" => Some(WEv::Pending),
+        "x" => Some(WEv::Err),
+        _ => e.strip_prefix('a')?.parse().ok().map(WEv::Accept),
+    })?;
+    let prog = parse_list(prog, |e| match e {
+        "p" => Some(Act::Poll),
+        _ => {
+            if let Some(h) = e.strip_prefix('s') {
+                unhex(h).map(|m| Act::Send(m, true))
+            } else {
+                unhex(e.strip_prefix('S')?).map(|m| Act::Send(m, false))
+            }
+        }
+    })?;
+    Some(Case { wrap, vec, rs, ws, prog })
+}
+
+fn show_rs(rs: &[REv]) -> String {
+    if rs.is_empty() {
+        return "-".into();
+    }
+    rs.iter()
+        .map(|e| match e {
+            REv::Data(d) => format!("d{}", hex(d)),
+            REv::Pending => "p".into(),
+            REv::Eof => "e".into(),
+            REv::Err => "x".into(),
+        })
+        .collect::<Vec<_>>()
+        .join(",")
+}
+
+fn show_ws(ws: &[WEv]) -> String {
+    if ws.is_empty() {
+        return "-".into();
+    }
+    ws.iter()
+        .map(|e| match e {
+            WEv::Accept(n) => format!("a{n}"),
+            WEv::Pending => "p".into(),
+            WEv::Err => "x".into(),
+        })
+        .collect::<Vec<_>>()
+        .join(",")
+}
+
+fn show_prog(p: &[Act]) -> String {
+    if p.is_empty() {
+        return "-".into();
+    }
+    p.iter()
+        .map(|e| match e {
+            Act::Send(m, true) => format!("s{}", hex(m)),
+            Act::Send(m, false) => format!("S{}", hex(m)),
+            Act::Poll => "p".into(),
+        })
+        .collect::<Vec<_>>()
+        .join(",")
+}
+
+fn case_line(wrap: char, vec: bool, rs: &[REv], ws: &[WEv], prog: &[Act]) -> String {
+    format!("io {} {} {} {} {}", wrap, if vec { "v" } else { "s" }, show_rs(rs), show_ws(ws), show_prog(prog))
+}
+
+struct RunOut {
+    trace: Vec<Tok>,
+    written: Vec<u8>,
+    flushes: usize,
+    /// messages handed to `send` (in order) with their dst-ok flag
+    sent: Vec<(Vec<u8>, bool)>,
+    send_failed: bool,
+    rejected: usize,
+    /// a Pending that nobody will wake although no socket half said "blocks for ever"
+    lost_wakeup: bool,
+    /// which half blocked when the run ended with `I`
+    idle_side: Option<char>,
+    /// after a read-side idle: did a later `send` wake the task?
+    idle_send_wakes: Option<bool>,
+    misuse: Vec<String>,
+}
+
+fn tokio_rt() -> &'static tokio::runtime::Runtime {
+    static RT: OnceLock<tokio::runtime::Runtime> = OnceLock::new();
+    RT.get_or_init(|| tokio::runtime::Builder::new_current_thread().enable_time().build().expect("runtime"))
+}
+
+type Items = Pin<Box<dyn Stream<Item = Result<Vec<u8>, ()>> + Send>>;
+
+fn run_case(c: &Case) -> RunOut {
+    let peer: SocketAddr = "192.0.2.1:53".parse().unwrap();
+    let other: SocketAddr = "192.0.2.2:53".parse().unwrap();
+    let sock = Arc::new(Mutex::new(Sock {
+        rs: c.rs.iter().cloned().collect(),
+        ws: c.ws.iter().cloned().collect(),
+        vectored: c.vec,
+        ..Default::default()
+    }));
+    let _guard = tokio_rt().enter();
+    let (tcp, mut handle) = TcpStream::from_stream(ScriptSock(sock.clone()), peer);
+    let mut stream: Items = match c.wrap {
+        't' => Box::pin(tcp.map(|r| r.map(|m| m.into_parts().0).map_err(|_| ()))),
+        'c' => Box::pin(TcpClientStream::from_stream(tcp).map(|r| r.map(|m| m.into_parts().0).map_err(|_| ()))),
+        'o' => Box::pin(TimeoutStream::new(tcp, Duration::from_secs(0)).map(|r| r.map(|m| m.into_parts().0).map_err(|_| ()))),
+        _ => Box::pin(TimeoutStream::new(tcp, Duration::from_secs(3600)).map(|r| r.map(|m| m.into_parts().0).map_err(|_| ()))),
+    };
+    let flag = Arc::new(Flag(AtomicBool::new(false)));
+    let waker = Waker::from(flag.clone());
+    let mut cx = Context::from_waker(&waker);
+    let mut out = RunOut {
+        trace: vec![],
+        written: vec![],
+        flushes: 0,
+        sent: vec![],
+        send_failed: false,
+        rejected: 0,
+        lost_wakeup: false,
+        idle_side: None,
+        idle_send_wakes: None,
+        misuse: vec![],
+    };
+    let mut poll_once = |out: &mut RunOut| -> Tok {
+        flag.0.store(false, Ordering::SeqCst);
+        sock.lock().unwrap().idle_side = None;
+        let t = match stream.as_mut().poll_next(&mut cx) {
+            Poll::Ready(Some(Ok(m))) => Tok::Msg(m),
+            Poll::Ready(Some(Err(()))) => Tok::Err,
+            Poll::Ready(None) => Tok::End,
+            Poll::Pending => {
+                if flag.0.load(Ordering::SeqCst) {
+                    Tok::P
+                } else {
+                    let side = sock.lock().unwrap().idle_side;
+                    if side.is_none() {
+                        out.lost_wakeup = true;
+                    }
+                    out.idle_side = side;
+                    Tok::I
+                }
+            }
+        };
+        out.trace.push(t.clone());
+        t
+    };
+    let mut done = false;
+    for a in &c.prog {
+        match a {
+            Act::Send(m, ok) => {
+                let r = if *ok {
+                    handle.send(SerialMessage::new(m.clone(), peer))
+                } else {
+                    handle.with_remote_addr(other).send(SerialMessage::new(m.clone(), peer))
+                };
+                if r.is_err() {
+                    // rejected by the bounded outbound queue: the caller is told, the message is not sent
+                    out.send_failed = true;
+                    out.rejected += 1;
+                } else {
+                    out.sent.push((m.clone(), *ok));
+                }
+            }
+            Act::Poll => {
+                let t = poll_once(&mut out);
+                if matches!(t, Tok::End | Tok::Err) {
+                    done = true;
+                    break;
+                }
+            }
+        }
+    }
+    while !done {
+        let t = poll_once(&mut out);
+        done = matches!(t, Tok::End | Tok::Err | Tok::I);
+    }
+    {
+        let g = sock.lock().unwrap();
+        out.written = g.written.clone();
+        out.flushes = g.flushes;
+        out.misuse = g.misuse.clone();
+    }
+    // waker contract of the outbound queue (validated only): after the read half blocked, the
+    // queue has been polled empty in the same poll_next, so a later send must wake the task
+    if out.trace.last() == Some(&Tok::I) && out.idle_side == Some('r') {
+        flag.0.store(false, Ordering::SeqCst);
+        let _ = handle.send(SerialMessage::new(vec![0xEE], peer));
+        out.idle_send_wakes = Some(flag.0.load(Ordering::SeqCst));
+    }
+    out
+}
+
+fn frame(m: &[u8]) -> Vec<u8> {
+    let mut v = vec![(m.len() >> 8) as u8, m.len() as u8];
+    v.extend_from_slice(m);
+    v
+}
+
+#[derive(Debug, PartialEq, Clone, Copy)]
+enum Tail {
+    Boundary,
+    InPrefix,
+    InBody,
+    ZeroFrame,
+}
+
+/// independent reference: cut a byte stream into length-prefixed messages
+fn deframe(mut b: &[u8]) -> (Vec<Vec<u8>>, Tail) {
+    let mut out = vec![];
+    loop {
+        if b.is_empty() {
+            return (out, Tail::Boundary);
+        }
+        if b.len() < 2 {
+            return (out, Tail::InPrefix);
+        }
+        let n = ((b[0] as usize) << 8) | b[1] as usize;
+        if n == 0 {
+            return (out, Tail::ZeroFrame);
+        }
+        if b.len() - 2 < n {
+            return (out, Tail::InBody);
+        }
+        out.push(b[2..2 + n].to_vec());
+        b = &b[2 + n..];
+    }
+}
+
+#[derive(Debug, PartialEq, Clone, Copy)]
+enum Ending {
+    Eof,
+    Err,
+    Open,
+}
+
+fn stream_of(rs: &[REv]) -> (Vec<u8>, Ending) {
+    let mut b = vec![];
+    for e in rs {
+        match e {
+            REv::Data(d) => b.extend_from_slice(d),
+            REv::Pending => {}
+            REv::Eof => return (b, Ending::Eof),
+            REv::Err => return (b, Ending::Err),
+        }
+    }
+    (b, Ending::Open)
+}
+
+pub fn exec(line: &str, rec: &mut Recorder) {
+    let t: Vec<&str> = line.split_whitespace().collect();
+    let Some(c) = parse_case(&t) else {
+        rec.stat("skipped.unparsable-case");
+        return;
+    };
+    let r = catch(|| run_case(&c));
+    let o = match r {
+        Ok(o) => o,
+        Err(p) => {
+            let idx = rec.case(line.to_string(), format!("panic {p}"));
+            rec.fail(idx, format!("panic: {p}"), "");
+            return;
+        }
+    };
+    let out = format!(
+        "{} w={} f={} r={}",
+        o.trace.iter().map(Tok::show).collect::<Vec<_>>().join(","),
+        hex(&o.written),
+        o.flushes,
+        o.rejected
+    );
+    if o.send_failed {
+        rec.stat_n("send.rejected-by-full-queue", o.rejected as u64);
+    }
+    let idx = rec.case(line.to_string(), out);
+
+    // ---------------------------------------------------------------- the property's oracle
+    let mut fails: Vec<String> = vec![];
+    let delivered: Vec<&Vec<u8>> = o.trace.iter().filter_map(|t| if let Tok::Msg(m) = t { Some(m) } else { None }).collect();
+    let term = o.trace.last().cloned().unwrap_or(Tok::I);
+    let (bytes, ending) = stream_of(&c.rs);
+    let (exp, tail) = deframe(&bytes);
+    let write_can_fail = c.ws.contains(&WEv::Err) || c.prog.iter().any(|a| matches!(a, Act::Send(_, false)));
+    let write_blocked = term == Tok::I && o.idle_side == Some('w');
+    let oversize = o.sent.iter().any(|(m, _)| m.len() > 0xFFFF);
+
+    // every delivered message is one of the framed messages, whole, in order, once
+    if delivered.len() > exp.len() || delivered.iter().zip(&exp).any(|(a, b)| *a != b) {
+        fails.push(format!(
+            "delivered messages are not a prefix of the framed messages (truncated/merged/duplicated): got {} expected {}",
+            delivered.len(),
+            exp.len()
+        ));
+    }
+    if delivered.iter().any(|m| m.is_empty()) {
+        fails.push("an empty message was delivered".into());
+    }
+    if matches!(term, Tok::Msg(_) | Tok::P) {
+        fails.push("run did not end in end/err/blocked".into());
+    }
+    if !write_can_fail && !write_blocked {
+        // the receive side ran to the end of the script: all complete frames, then the right ending
+        if delivered.len() != exp.len() {
+            fails.push(format!("only {} of {} complete messages delivered", delivered.len(), exp.len()));
+        }
+        let want: &[Tok] = match (tail, ending) {
+            (Tail::ZeroFrame, _) => &[Tok::Err, Tok::I], // allowed to end with an error (or wait for the close)
+            (Tail::Boundary, Ending::Eof) => &[Tok::End],
+            (_, Ending::Eof) => &[Tok::Err],
+            (_, Ending::Err) => &[Tok::Err],
+            (_, Ending::Open) => &[Tok::I],
+        };
+        if !want.contains(&term) {
+            fails.push(format!("stream ended with {} but {:?}/{:?} requires {:?}", term.show(), tail, ending, want.iter().map(Tok::show).collect::<Vec<_>>()));
+        }
+    }
+    // send side: bytes accepted by the socket = concatenated frames (a prefix while incomplete)
+    if !oversize {
+        let mut want = vec![];
+        for (m, ok) in &o.sent {
+            if !*ok {
+                break;
+            }
+            want.extend(frame(m));
+        }
+        if !want.starts_with(&o.written) {
+            fails.push("bytes written are not a prefix of the concatenated frames".into());
+        }
+        if !write_can_fail && !write_blocked {
+            if o.written != want {
+                fails.push(format!("bytes written incomplete although the send loop finished: {} of {}", o.written.len(), want.len()));
+            }
+            if o.flushes != o.sent.len() {
+                fails.push(format!("{} flushes for {} messages", o.flushes, o.sent.len()));
+            }
+        }
+    } else {
+        rec.stat("send.oversize(>65535, outside the property)");
+    }
+    if o.send_failed && o.sent.len() < 33 {
+        fails.push(format!("handle.send rejected a message with only {} queued (buffer 32 + 1)", o.sent.len()));
+    }
+    // validated only: wake-ups
+    if o.lost_wakeup {
+        fails.push("poll_next returned Pending although no socket call blocked and nobody woke the task".into());
+    }
+    if o.idle_send_wakes == Some(false) {
+        fails.push("after the socket blocked, a later handle.send did not wake the task".into());
+    }
+    for m in &o.misuse {
+        fails.push(format!("socket misuse: {m}"));
+    }
+    for f in fails {
+        rec.fail(idx, f, "");
+    }
+
+    // ---------------------------------------------------------------- distribution
+    rec.stat(&format!("wrap.{}", c.wrap));
+    rec.stat(if c.vec { "sock.vectored" } else { "sock.default-vectored" });
+    rec.stat(&format!("read.msgs-delivered.{}", delivered.len().min(4)));
+    rec.stat(&format!("read.tail.{tail:?}.{ending:?}"));
+    rec.stat(&format!("end.{}", match term { Tok::I => format!("blocked-{}", o.idle_side.unwrap_or('?')), t => t.show() }));
+    let nchunks = c.rs.iter().filter(|e| matches!(e, REv::Data(_))).count();
+    rec.stat(&format!(
+        "read.chunks.{}",
+        match nchunks {
+            0 => "0",
+            1 => "1",
+            2..=4 => "2-4",
+            5..=16 => "5-16",
+            17..=64 => "17-64",
+            _ => "65+",
+        }
+    ));
+    rec.stat_n("read.pending-events", c.rs.iter().filter(|e| **e == REv::Pending).count() as u64);
+    rec.stat_n("write.pending-events", c.ws.iter().filter(|e| **e == WEv::Pending).count() as u64);
+    rec.stat(&format!("send.msgs.{}", o.sent.len().min(4)));
+    for m in exp.iter().chain(o.sent.iter().map(|(m, _)| m)) {
+        rec.stat(&format!(
+            "msg.len.{}",
+            match m.len() {
+                0 => "0",
+                1 => "1",
+                2 => "2",
+                3..=254 => "3-254",
+                255 => "255",
+                256 => "256",
+                257..=300 => "257-300",
+                _ => "301+",
+            }
+        ));
+    }
+    if c.prog.iter().any(|a| *a == Act::Poll) {
+        rec.stat("prog.interleaved-polls");
+    }
+    // chunk boundary inside a length prefix?
+    let mut off = 0usize;
+    let mut starts = vec![];
+    {
+        let mut p = 0usize;
+        for m in &exp {
+            starts.push(p);
+            p += 2 + m.len();
+        }
+        starts.push(p);
+    }
+    let mut inside = false;
+    for e in &c.rs {
+        if let REv::Data(d) = e {
+            off += d.len();
+            if starts.iter().any(|s| off == s + 1) {
+                inside = true;
+            }
+        }
+        if matches!(e, REv::Eof | REv::Err) {
+            break;
+        }
+    }
+    if inside {
+        rec.stat("read.chunk-boundary-inside-length-prefix");
+    }
+    if !delivered.is_empty() || (!o.written.is_empty() && c.ws.len() > 1) {
+        if c.rs.len() + c.ws.len() >= 2 {
+            rec.nontrivial(idx);
+        }
+    }
+}
+
+// -------------------------------------------------------------------- generators
+
+fn gen_len(r: &mut Rng) -> usize {
+    match r.below(3) {
+        0 => *r.pick(&[1usize, 2, 255, 256]),
+        1 => r.range(1, 12) as usize,
+        _ => r.range(1, 300) as usize,
+    }
+}
+
+/// cut `bytes` into chunks by `style`
+fn chunk(r: &mut Rng, bytes: &[u8], style: u64, marks: &[usize]) -> Vec<Vec<u8>> {
+    let mut out = vec![];
+    let mut i = 0;
+    while i < bytes.len() {
+        let rest = bytes.len() - i;
+        let n = match style {
+            0 => 1,
+            1 => r.range(1, 8) as usize,
+            2 => r.range(1, rest as u64) as usize,
+            3 => rest,
+            4 => {
+                // cut exactly after the first byte of each length prefix and nowhere else
+                let next = marks.iter().map(|m| m + 1).find(|m| *m > i).unwrap_or(bytes.len());
+                next - i
+            }
+            _ => {
+                if r.chance(1, 2) {
+                    r.range(1, 3) as usize
+                } else {
+                    r.range(1, 400) as usize
+                }
+            }
+        }
+        .min(rest)
+        .max(1);
+        out.push(bytes[i..i + n].to_vec());
+        i += n;
+    }
+    out
+}
+
+fn sprinkle(r: &mut Rng, chunks: Vec<Vec<u8>>, dens: u64) -> Vec<REv> {
+    // dens: 0 none, 1 = 1/4, 2 = 1/2, 3 = before every chunk (and runs of Pending)
+    let mut out = vec![];
+    for c in chunks {
+        let k = match dens {
+            0 => 0,
+            1 => r.chance(1, 4) as u64,
+            2 => r.chance(1, 2) as u64,
+            _ => 1 + r.below(3) * r.chance(1, 4) as u64,
+        };
+        for _ in 0..k {
+            out.push(REv::Pending);
+        }
+        out.push(REv::Data(c));
+    }
+    out
+}
+
+fn gen_write_script(r: &mut Rng, total: usize, nmsgs: usize) -> Vec<WEv> {
+    let mut ws = vec![];
+    let style = r.below(5);
+    let mut budget = 0usize;
+    while budget < total + 4 {
+        let n = match style {
+            0 => 1,
+            1 => r.range(1, 8) as usize,
+            2 => r.range(1, 400) as usize,
+            3 => 65535,
+            _ => *r.pick(&[1usize, 2, 3, 255, 256, 257, 300]),
+        };
+        if r.chance(1, 5) {
+            ws.push(WEv::Pending);
+        }
+        if r.chance(1, 40) {
+            ws.push(WEv::Accept(0));
+        }
+        ws.push(WEv::Accept(n));
+        budget += n.min(2); // an accept may be spent on the 2-byte prefix alone
+        if style == 3 && ws.len() > 4 * nmsgs + 8 {
+            break;
+        }
+    }
+    if r.chance(1, 25) && !ws.is_empty() {
+        let i = r.below(ws.len() as u64) as usize;
+        ws.insert(i, WEv::Err);
+    }
+    if r.chance(7, 8) {
+        for _ in 0..(2 * nmsgs + 2) {
+            if r.chance(1, 6) {
+                ws.push(WEv::Pending);
+            }
+            ws.push(WEv::Accept(65535));
+        }
+    } else if r.chance(1, 2) {
+        // short script: the write half blocks for ever somewhere
+        let k = r.below(ws.len() as u64 + 1) as usize;
+        ws.truncate(k);
+    }
+    ws
+}
+
+/// many tiny messages against the bounded outbound queue (32 + 1), drained in fits and starts
+fn gen_burst(r: &mut Rng) -> String {
+    let n = r.range(28, 48) as usize;
+    let mut prog = vec![];
+    for i in 0..n {
+        let l = r.range(1, 3) as usize;
+        let mut m = r.bytes(l);
+        m[0] = i as u8;
+        prog.push(Act::Send(m, !r.chance(1, 30)));
+        if r.chance(1, 9) {
+            prog.push(Act::Poll);
+        }
+    }
+    let mut ws = vec![];
+    for _ in 0..r.range(0, 3 * n as u64) {
+        match r.below(6) {
+            0 => ws.push(WEv::Pending),
+            1 => ws.push(WEv::Accept(1)),
+            _ => ws.push(WEv::Accept(*r.pick(&[2usize, 3, 4, 5, 65535]))),
+        }
+    }
+    if r.chance(3, 4) {
+        for _ in 0..(3 * n) {
+            ws.push(WEv::Accept(65535));
+        }
+    }
+    let rs = if r.chance(1, 2) { vec![REv::Eof] } else { vec![REv::Pending, REv::Data(vec![0, 1, 0x61]), REv::Pending, REv::Eof] };
+    case_line('t', r.chance(1, 2), &rs, &ws, &prog)
+}
+
+fn gen_case(r: &mut Rng) -> String {
+    if r.chance(1, 40) {
+        return gen_burst(r);
+    }
+    // ---- receive direction
+    let k = r.range(1, 3) as usize;
+    let mut msgs: Vec<Vec<u8>> = (0..k).map(|_| { let n = gen_len(r); r.bytes(n) }).collect();
+    if r.chance(1, 12) {
+        let i = r.below(msgs.len() as u64 + 1) as usize;
+        msgs.insert(i, vec![]); // zero-length frame
+    }
+    if r.chance(1, 10) {
+        msgs.clear();
+    }
+    let mut bytes = vec![];
+    let mut marks = vec![];
+    for m in &msgs {
+        marks.push(bytes.len());
+        bytes.extend(frame(m));
+    }
+    let ending = r.below(20);
+    // 0..8 eof at the boundary, 8..13 eof inside, 13..16 open, 16..18 err somewhere, 18..20 open after a cut
+    let cut = |r: &mut Rng, b: &mut Vec<u8>| {
+        if b.len() > 1 {
+            let k = r.range(1, b.len() as u64 - 1) as usize;
+            b.truncate(k);
+        }
+    };
+    match ending {
+        8..=12 | 18 | 19 => cut(r, &mut bytes),
+        16 | 17 => {
+            if r.chance(1, 2) {
+                cut(r, &mut bytes)
+            }
+        }
+        _ => {}
+    }
+    let style = r.below(6);
+    let dens = r.below(4);
+    let chunks = chunk(r, &bytes, style, &marks);
+    let mut rs = sprinkle(r, chunks, dens);
+    match ending {
+        0..=12 => {
+            if r.chance(1, 3) {
+                rs.push(REv::Pending);
+            }
+            rs.push(REv::Eof);
+            if r.chance(1, 8) {
+                rs.push(REv::Data(vec![0, 1, 0x41])); // bytes after the close are never seen
+            }
+        }
+        16 | 17 => rs.push(REv::Err),
+        _ => {
+            if r.chance(1, 3) {
+                rs.push(REv::Pending);
+            }
+        }
+    }
+    // ---- send direction
+    let mut ws = vec![];
+    let mut prog = vec![];
+    if r.chance(1, 2) {
+        let n = r.range(1, 3) as usize;
+        let mut total = 0;
+        let mut sends = vec![];
+        for _ in 0..n {
+            let l = if r.chance(1, 15) { 0 } else { gen_len(r) };
+            total += l + 2;
+            sends.push(Act::Send(r.bytes(l), !r.chance(1, 40)));
+        }
+        ws = gen_write_script(r, total, n);
+        let inter = r.chance(1, 3);
+        for s in sends {
+            prog.push(s);
+            if inter {
+                for _ in 0..r.below(3) {
+                    prog.push(Act::Poll);
+                }
+            }
+        }
+    } else if r.chance(1, 6) {
+        for _ in 0..r.range(1, 3) {
+            prog.push(Act::Poll);
+        }
+    }
+    let wrap = *r.pick(&['t', 't', 't', 'c', 'o', 'O']);
+    case_line(wrap, r.chance(1, 2), &rs, &ws, &prog)
+}
+
+/// all compositions of `bytes` into chunks (2^(n-1) of them), each as a read script
+fn all_compositions(bytes: &[u8], mut f: impl FnMut(Vec<Vec<u8>>)) {
+    let n = bytes.len();
+    if n == 0 {
+        f(vec![]);
+        return;
+    }
+    for mask in 0u32..(1u32 << (n - 1)) {
+        let mut chunks = vec![];
+        let mut cur = vec![bytes[0]];
+        for i in 1..n {
+            if mask & (1 << (i - 1)) != 0 {
+                chunks.push(std::mem::take(&mut cur));
+            }
+            cur.push(bytes[i]);
+        }
+        chunks.push(cur);
+        f(chunks);
+    }
+}
+
+fn enumerate(o: &Opts, rec: &mut Recorder) {
+    // message-length configurations whose stream has at most `cap` bytes
+    let cap = if o.thorough() { 16 } else { 10 };
+    let cfgs: &[&[usize]] = &[
+        &[1], &[2], &[1, 1], &[3], &[2, 1], &[1, 2], &[5], &[1, 1, 1], &[7], &[3, 2], &[2, 2, 2], &[1, 2, 3], &[10], &[4, 4],
+        &[3, 3, 2], &[5, 5], &[12], &[3, 3, 3], &[13], &[14], &[6, 6], &[4, 4, 2], &[0], &[1, 0], &[0, 1], &[1, 0, 1], &[2, 0, 2, 0],
+    ];
+    let mut seed = 0x41u8;
+    for cfg in cfgs {
+        let total: usize = cfg.iter().map(|l| l + 2).sum();
+        if total > cap {
+            continue;
+        }
+        let mut bytes = vec![];
+        let mut msgs = vec![];
+        for l in *cfg {
+            let m: Vec<u8> = (0..*l).map(|_| { seed = seed.wrapping_add(1); seed }).collect();
+            bytes.extend(frame(&m));
+            msgs.push(m);
+        }
+        // EOF at every position × every composition of the bytes before it
+        for cutpos in 0..=bytes.len() {
+            if !o.thorough() && cutpos != bytes.len() && cutpos > 6 {
+                continue;
+            }
+            let mut lines = vec![];
+            all_compositions(&bytes[..cutpos], |chunks| {
+                let mut rs: Vec<REv> = chunks.iter().cloned().map(REv::Data).collect();
+                rs.push(REv::Eof);
+                lines.push(case_line('t', true, &rs, &[], &[]));
+                if cutpos == bytes.len() {
+                    // the same with Pending before every chunk, and left open instead of closed
+                    let mut rp = vec![];
+                    for c in &chunks {
+                        rp.push(REv::Pending);
+                        rp.push(REv::Data(c.clone()));
+                    }
+                    lines.push(case_line('t', true, &rp, &[], &[]));
+                }
+            });
+            for l in lines {
+                exec(&l, rec);
+            }
+        }
+        // send direction: every composition of the frame bytes as acceptance sizes, both socket kinds
+        if msgs.iter().all(|m| !m.is_empty()) || total <= 9 {
+            let prog: Vec<Act> = msgs.iter().map(|m| Act::Send(m.clone(), true)).collect();
+            let mut lines = vec![];
+            all_compositions(&bytes, |chunks| {
+                let mut ws: Vec<WEv> = chunks.iter().map(|c| WEv::Accept(c.len())).collect();
+                for _ in 0..(2 * msgs.len() + 1) {
+                    ws.push(WEv::Accept(65535));
+                }
+                lines.push(case_line('t', true, &[REv::Eof], &ws, &prog));
+                lines.push(case_line('t', false, &[REv::Eof], &ws, &prog));
+            });
+            for l in lines {
+                exec(&l, rec);
+            }
+        }
+    }
+}
+
+/// hand-built cases that are too long for the corpus file
+fn built() -> Vec<String> {
+    let mut v = vec![];
+    // 40 one-byte messages queued before the first poll: the bounded queue (32 + 1 sender slot) rejects the tail
+    let prog: Vec<Act> = (0..40u8).map(|i| Act::Send(vec![i], true)).collect();
+    let ws: Vec<WEv> = (0..90).map(|_| WEv::Accept(65535)).collect();
+    v.push(case_line('t', true, &[REv::Eof], &ws, &prog));
+    // 33 fit exactly
+    let prog: Vec<Act> = (0..33u8).map(|i| Act::Send(vec![i], true)).collect();
+    v.push(case_line('t', false, &[REv::Data(vec![0, 1, 0x61]), REv::Eof], &ws, &prog));
+    // 65535 bytes: the largest message a two-byte prefix can announce; 65536 / 65539: `len as u16` wraps
+    for n in [65535usize, 65536, 65539] {
+        let m: Vec<u8> = (0..n).map(|i| (i % 251) as u8).collect();
+        let ws = vec![WEv::Accept(1), WEv::Accept(40000), WEv::Pending, WEv::Accept(65535), WEv::Accept(65535)];
+        v.push(case_line('t', true, &[REv::Eof], &ws, &[Act::Send(m, true)]));
+    }
+    // a 65535-byte message received in three chunks
+    let m: Vec<u8> = (0..65535usize).map(|i| (i % 253) as u8).collect();
+    let f = frame(&m);
+    v.push(case_line(
+        't',
+        true,
+        &[REv::Data(f[..1].to_vec()), REv::Data(f[1..30000].to_vec()), REv::Pending, REv::Data(f[30000..].to_vec()), REv::Eof],
+        &[],
+        &[],
+    ));
+    v
+}
+
+pub fn run(o: &Opts, rec: &mut Recorder) {
+    rec.rule = "scripted sockets from a seeded generator: 0-3 framed messages of lengths 1..300 (1, 2, 255, 256 forced often), zero-length frames, six chunking styles (all 1-byte, small, large, whole, cuts inside every length prefix, mixed), Pending sprinkled at four densities, EOF at the boundary / inside prefix / inside body, read errors, open ends; 0-3 outbound messages with acceptance scripts (1-byte, small, large, accept-0, Pending, errors, blocked), sends up front or interleaved with polls; plus ALL compositions of small streams (see distribution). Non-trivial: at least one message delivered or framed bytes written through a multi-event script; distinct by case line".into();
+    for l in o.pre_lines.clone() {
+        exec(&l, rec);
+    }
+    rec.corpus_cases = rec.cases.len();
+    if o.replay_only {
+        return;
+    }
+    for l in built() {
+        exec(&l, rec);
+    }
+    let before = rec.cases.len();
+    enumerate(o, rec);
+    rec.stat_n("enumerated.all-compositions-cases", (rec.cases.len() - before) as u64);
+    let mut r = Rng::new(o.seed);
+    for _ in 0..o.n(12_000, 300_000) {
+        let l = gen_case(&mut r);
+        exec(&l, rec);
+    }
 }
